@@ -57,6 +57,11 @@ CHECKS = {
     'C12': ('symbolic execution of permutations/rotations (exact tables in Q(sqrt 3) through the real form_b_mat) and of Umis on two unit-quaternion rotations; group axioms, pairing identity for a symbolic conforming cell and Umis invariance identities decided by normal form + z3/cvc5 (QF_NRA)',
             'Bounded model checking over exact reals: all 7 crystal systems, all pairs of operators, all pairs of proper rotations, all conforming cells. The obligation that the arccos argument lies in [-1,1] is an 8-variable inequality that the solvers leave inconclusive for most operators (listed in the evidence).',
             'ndarray.clip is modelled as the identity under that obligation.', '6/C12'),
+    'C17': ('execution of the real CIFread/remove_esd/PDBread on files whose numeric fields are opaque tokens mapped to solver reals by float()/int() contract stubs; all string handling of the code runs for real; field-by-field equalities checked with z3 (linear real arithmetic)',
+            'Bounded checking: 90 CIF configurations and 3 PDB files with 2 atoms each, every numeric value symbolic; verdicts are equalities between solver terms. String-theory solving is not used: the decisive symbolic part is the numeric content, the structural part is enumerated.',
+            'PyCifRW and Python\'s float grammar are outside the claim.', '6/C17'),
+    'C19': ('execution of the real parameters class with symbolic values and contract stubs for str/float/int (nearest-double function with rounding contract); path exploration of dumbtypecheck; value/type obligations decided by z3 (LIA/LRA with an uninterpreted rounding function); bounded enumeration of API call sequences against a dictionary model',
+            'Bounded model checking: save/load and dumbtypecheck for every integer, every real standing for a float and opaque strings; all call sequences of length <= 3 over 17 concrete operations with symbolic values (about 7000 sequences).', 'Bit-exact float round trip is an assumed contract.', '6/C19'),
 }
 NA_REASON = {}
 
